@@ -87,6 +87,15 @@ def cov_fp(cov):
     return (frame, np.array(cov, dtype=float).tobytes().hex())
 
 
+def prop_fp(p):
+    """class of the propagator and, for the numerical one, its settings (they are part of the orbit)"""
+    name = type(p).__name__
+    if name == "KeplerNum":
+        bodies = ",".join(getattr(b, "name", str(b)) for b in p.bodies)
+        return f"KeplerNum(step={p.step.total_seconds():g},method={p.method},frame={_name(p.frame)},tol={p.tol:g},bodies={bodies})"
+    return name
+
+
 def snap(o):
     d = o._data
     mans = d.get("maneuvers") or []
@@ -101,7 +110,7 @@ def snap(o):
         meta={k: canon(v) for k, v in d.items() if k not in RESERVED},
         mans=[man_fp(m) for m in mans],
         cov=cov_fp(d.get("cov")),
-        prop=type(d["propagator"]).__name__ if "propagator" in d else "<none>",
+        prop=prop_fp(d["propagator"]) if "propagator" in d else "<none>",
     )
 
 
